@@ -413,22 +413,19 @@ Proof. intros dn ts a Hh HP. apply (Parses_neg dn ts a 0 Hh HP). Qed.
 
 (* after a primary expression: no predicate, no path continuation *)
 Lemma path_tail_stop : forall f st1 d L1 (o : anode),
-  AtL st1 d L1 -> follow1 8 L1 ->
-  (if is_typ st1 ILBracket then
-     let* st2 := skip_item st1 ILBracket in
-     let* (c, st3) := pgo ns f EExpr (Some o) st2 in
-     let* st4 := skip_item st3 IRBracket in Ok (AFilter o c, st4)
-   else Ok (o, st1)) = Ok (o, st1) /\
+  1 <= f -> AtL st1 d L1 -> follow1 8 L1 ->
+  pred_loop f (pgo ns f EExpr) o st1 = Ok (o, st1) /\
   match typ st1 with
   | ISlash => let* st2 := pnext st1 in relpath_loop f (pgo ns f EStep) (Some o) st2
   | ISlashSlash => let* st2 := pnext st1 in relpath_loop f (pgo ns f EStep) (Some (dos_node (Some o))) st2
   | _ => Ok (o, st1)
   end = Ok (o, st1).
 Proof.
-  intros f st1 d L1 o HA Hfo. destruct L1 as [|[w1 t1] r1]; [contradiction|].
+  intros f st1 d L1 o Hf HA Hfo. destruct L1 as [|[w1 t1] r1]; [contradiction|].
   cbn [follow1] in Hfo. destruct (follow_ok_typ _ _ Hfo) as [Hb [Hs Hss]].
   split.
-  - rewrite (is_typ_At _ _ _ _ _ ILBracket HA).
+  - destruct f as [|f]; [lia|]. cbn [pred_loop].
+    rewrite (is_typ_At _ _ _ _ _ ILBracket HA).
     destruct (itype_eqb (ttyp t1) ILBracket) eqn:E; [|reflexivity].
     apply itype_eqb_eq in E. congruence.
   - rewrite (typ_At _ _ _ _ _ HA). destruct (ttyp t1); try reflexivity; congruence.
@@ -442,7 +439,7 @@ Proof.
   destruct (pnext_At _ _ _ _ _ HA (follow1_ne _ _ Hfo)) as [st1 [Hn HA1]].
   exists st1. split; [|exact HA1].
   pose proof (typ_At _ _ _ _ _ HA) as Ty. cbn [ttyp] in Ty.
-  destruct (path_tail_stop f st1 d L1 (ANum (of_decimal false ds [])) HA1 Hfo) as [T1 T2].
+  destruct (path_tail_stop f st1 d L1 (ANum (of_decimal false ds [])) ltac:(cbn in Hf; lia) HA1 Hfo) as [T1 T2].
   cbn [lev]. unfold path_expr_b, is_primary_expr. rewrite Ty.
   unfold filter_expr_b, primary_b. rewrite Ty. cbv zeta. rewrite Hn. cbn [cbind].
   destruct HA as [HS _]. pose proof (st_fld _ _ _ HS) as Hv. cbn beta iota in Hv. rewrite Hv.
@@ -457,7 +454,7 @@ Proof.
   destruct (pnext_At _ _ _ _ _ HA (follow1_ne _ _ Hfo)) as [st1 [Hn HA1]].
   exists st1. split; [|exact HA1].
   pose proof (typ_At _ _ _ _ _ HA) as Ty. cbn [ttyp] in Ty.
-  destruct (path_tail_stop f st1 d L1 (AStr b) HA1 Hfo) as [T1 T2].
+  destruct (path_tail_stop f st1 d L1 (AStr b) ltac:(cbn in Hf; lia) HA1 Hfo) as [T1 T2].
   cbn [lev]. unfold path_expr_b, is_primary_expr. rewrite Ty.
   unfold filter_expr_b, primary_b. rewrite Ty. cbv zeta. rewrite Hn. cbn [cbind].
   destruct HA as [HS _]. pose proof (st_fld _ _ _ HS) as Hv. cbn beta iota in Hv. rewrite Hv.
@@ -494,7 +491,7 @@ Proof.
   cbn [ttyp] in Hsk.
   exists st3. split; [|exact HA3].
   pose proof (typ_At _ _ _ _ _ HA) as Ty. cbn [ttyp] in Ty.
-  destruct (path_tail_stop f st3 d L1 (if is_operand a then a else AGroup a) HA3 Hfo) as [T1 T2].
+  destruct (path_tail_stop f st3 d L1 (if is_operand a then a else AGroup a) ltac:(lia) HA3 Hfo) as [T1 T2].
   cbn [lev]. unfold path_expr_b, is_primary_expr. rewrite Ty.
   unfold filter_expr_b, primary_b. rewrite Ty. rewrite Hn. cbn [cbind].
   rewrite Hp. cbn [cbind]. cbv zeta. rewrite Hsk. cbn [cbind].
